@@ -263,12 +263,14 @@ def stdTable : Table :=
     nameOfVar := stdNameOfVar,
     varOfName := stdVarOfName }
 
-/-- The run after a checkpoint: what the driver evaluates. `none` = the checkpoint panicked. -/
-def runCheckpointed (fixActive : Bool) (T : Table) (pre post : List Op) : Option (List Out) :=
-  let r := run Variant.fixed VMState.init pre
+/-- The run after a checkpoint: what the driver evaluates. `none` = the checkpoint panicked.
+`cfg` says which of C01's repairs the tree under test has (the harness probes it). -/
+def runCheckpointed (cfg : Variant) (fixActive : Bool) (T : Table) (pre post : List Op) :
+    Option (List Out) :=
+  let r := run cfg VMState.init pre
   if r.2.any Out.fatal then some r.2 else     -- the VM shut down before the checkpoint
   match checkpoint fixActive T r.1 with
-  | .ok vm' => some (r.2 ++ (run Variant.fixed vm' post).2)
+  | .ok vm' => some (r.2 ++ (run cfg vm' post).2)
   | _ => none
 
 end C08
